@@ -1690,4 +1690,38 @@ theorem runVoteE_eq (cfg : Cfg) (voters : List Voter) :
     · cases hs : cfg.strategy <;> simp [hg, hz, hs, aggregate]
     · cases hs : cfg.strategy <;> simp [hg, hz, hs, aggregate]
 
+/-! ## Part 17 — a partially funded colony of real voters on a safe proposal -/
+
+theorem bioVoters_safe_members (budget n : Nat) :
+    ∀ v ∈ bioVoters .safe budget n, v = bioVoter .permit ∨ v = bioVoter .other := by
+  induction n generalizing budget with
+  | zero => simp [bioVoters]
+  | succ n ih =>
+    simp only [bioVoters]
+    split_ifs <;> intro v hv <;> rcases List.mem_cons.mp hv with rfl | hv
+    · exact Or.inl rfl
+    · exact ih _ v hv
+    · exact Or.inr rfl
+    · exact ih _ v hv
+
+/-- the voters that can pay (10 ATP each, in colony order) permit; the others answer FAILURE -/
+theorem nP_bioVoters_safe (budget n : Nat) : nP (collect (bioVoters .safe budget n)) = min n (budget / 10) := by
+  induction n generalizing budget with
+  | zero => simp [bioVoters, collect, nP, ofKind]
+  | succ n ih =>
+    simp only [bioVoters]
+    split_ifs with h
+    · have hk : (toVote (bioVoter .permit)).kind = .permit := by decide
+      have : nP (collect (bioVoter .permit :: bioVoters .safe (budget - 10) n)) =
+          nP (collect (bioVoters .safe (budget - 10) n)) + 1 := by
+        unfold nP collect; simp only [List.map_cons]; rw [ofKind_cons]; simp [hk]
+      rw [this, ih]
+      omega
+    · have hk : (toVote (bioVoter .other)).kind ≠ .permit := by decide
+      have : nP (collect (bioVoter .other :: bioVoters .safe budget n)) =
+          nP (collect (bioVoters .safe budget n)) := by
+        unfold nP collect; simp only [List.map_cons]; rw [ofKind_cons]; simp [hk]
+      rw [this, ih]
+      omega
+
 end Operon.Quorum
